@@ -64,7 +64,7 @@ def floors(tier):
             "cls:tag:neg:hastype": 3, "re:cls:tag:neg:cmp.*": 100, "re:ElseIf(@.*)?\\.enter": 500,
             "re:AND(@.*)?\\.enter": 500, "cls:nvars=2": 50, "cls:nvars=3": 50,
             "cls:partial_order:sets": 150, "cls:partial_order:nan": 150, "cls:partial_order:falsy_pred_arg": 150,
-            "cls:block_style_predicate_terms": 200, "cls:negation_applied_to_the_description": 300, "cls:operand_is_single_solution_subquery": 200, "cls:block_style_negated_term": 100}
+            "cls:block_style_predicate_terms": 200, "cls:negation_applied_to_the_description": 300, "cls:preceded_by_an_abandoned_evaluation": 1500, "cls:operand_is_single_solution_subquery": 200, "cls:block_style_negated_term": 100}
 
 
 def _po_case(rng):
@@ -187,6 +187,7 @@ def cases(spec, ctx):
         case["k"] = "rand"
         case["wrap"] = [rng.choice(["not", "~"]) for _ in range(rng.randint(2, 3))]
         case["not_of_description"] = rng.random() < 0.2
+        case["take_first"] = rng.choice([0, 0, 0, 1, 2, 4])
         if rng.random() < 0.25:
             case["subquery_operands"] = C.with_single_solution_subquery(rng, case["cond"], D.build_world(case["world"]))
         yield case
@@ -217,7 +218,8 @@ def _rows(case, world, cond, caching=True):
         if sorted(both[0]) != sorted(both[1]):
             return both[1], exp         # the second evaluation is the one that is judged then
         return both[0], exp
-    return multi.evaluate(cc, world, caching=caching)[0], exp
+    # a share of the cases: the judged evaluation comes after one that was left after a few rows (closed), or that user code aborted
+    return multi.evaluate(cc, world, caching=caching, take_first=case.get("take_first", 0))[0], exp
 
 
 def check_case(case, ctx):
@@ -229,6 +231,8 @@ def check_case(case, ctx):
     ctx.cls(f"cls:nvars={len(kinds)}")
     if case.get("not_of_description"):
         ctx.cls("cls:negation_applied_to_the_description")
+    if case.get("take_first"):
+        ctx.cls("cls:preceded_by_an_abandoned_evaluation")
     if case.get("k") == "po":
         ctx.cls("cls:partial_order:" + case["mode"])
     if case.get("subquery_operands"):
